@@ -16,7 +16,7 @@ import (
 func init() {
 	register(&Rule{
 		Name:     "DEADCMP",
-		Doc:      "an ordered or equality comparison between an integer widened from a narrower type T (uint8/16/32, int8/16/32) and a constant never uses a constant above T's maximum: a guard like `int(sp) >= 256` with sp uint8 can never be true, so the limit it is meant to enforce (stack depth, length bound) does not exist",
+		Doc:      "an ordered or equality comparison between an integer widened from a narrower type T (uint8/16/32, int8/16/32) and a constant never uses a constant above T's maximum: a guard like `int(sp) >= 256` with sp uint8 can never be true, so the limit it is meant to enforce (stack depth, length bound) does not exist; `len(f)` of a stack field that is only ever allocated with one constant length counts as that constant",
 		Configs:  "NP",
 		Floor:    map[string]int{"N": 5, "P": 5},
 		Controls: 1,
@@ -85,7 +85,10 @@ func runDeadCmp(rc *RuleCtx) {
 				}
 				c, isC := constInt(y)
 				if !isC {
-					continue
+					// len(f) of a stack field that is always allocated with one constant length (STACKCAP)
+					if c, isC = lenOfFixedField(rc.W, y); !isC {
+						continue
+					}
 				}
 				from, ok := widenedFrom(x)
 				if !ok {
